@@ -58,6 +58,7 @@ type Frame struct {
 	vars     map[types.Object]*Cell
 	parent   *Frame
 	loopN    int
+	loopOrds map[ast.Node]int
 	callN    int
 	retN     int
 	depth    int
@@ -755,6 +756,10 @@ func (in *Interp) thaw(tm Term, t types.Type, f *Frame) Val {
 		s := in.sortOf(t)
 		in.initial[reg] = ArrV{T: App(s+"_arr", ArrSort(in.sortOf(u.Elem())), tm)}
 		ln := App(s+"_len", SInt, tm)
+		if !strings.Contains(ln.S, "!q") && !strings.Contains(ln.S, "p0!") && !strings.Contains(ln.S, "p1!") {
+			// a slice read back from a container has a non-negative length (ground terms only)
+			in.assumeGlobal(And(Le(IntLit(0), ln), Le(ln, IntLit(maxSliceLen))))
+		}
 		return SliceV{Reg: reg, Off: IntLit(0), Len: ln, Cap: ln, Nil: TFalse}
 	case *types.Struct:
 		s := in.sortOf(t)
